@@ -68,7 +68,8 @@ def run_configs(ctx, module, harness_bin, configs, actions, what_prefix, harness
         cfg = c["cfg"]
         label = cfg.replace(".cfg", "")
         sim = c.get("simulate")
-        r = ctx.tlc(module, cfg, workers=c.get("workers", 4), timeout=c.get("timeout", 3000),
+        r = ctx.tlc(module, cfg, workers=c.get("workers", 4), timeout=c.get("timeout", 3000 if ctx.quick else 14400),   # thorough: the widest exhaustive configs take well over an hour since session 3
+                   
                     xmx=c.get("xmx", "8g"), simulate=sim[0] if sim else None,
                     depth=sim[1] if sim else None, label=label)
         if r.violated:
